@@ -22,6 +22,9 @@ CLAIMS["C04"] = ("stateless model checking of the real code: delay-bounded exhau
 CLAIMS["C11"] = ("stateless model checking of the real code: delay-bounded exhaustive schedule enumeration over workload states x racing submit x wait flag",
     "Every schedule (<= deviation bound; synchronisation-operation granularity at d<=2, source-line granularity at d<=1) of shutdown() racing a submitter, for every executor class and four stacks over a recording base, in every workload state (idle, queued, running, done, between retries, polling, throttled): refusal afterwards on every layer, idempotence, exactly-one propagation with identical arguments, worker threads exited after wait=True, shutdown returns.",
     "DESIGN.md section 6 C11")
+CLAIMS["C03"] = ("stateless model checking of the real code under a virtual clock: delay-bounded exhaustive schedule enumeration; completion-time oracle",
+    "For every executor layer (and both flat_map stages, warm and cold) and every combinator, every schedule (<= deviation bound) of the ways the underlying work can end (value, exception, cancel issued directly on the inner future, cancel through the derived future) is executed; at quiescence a derived future whose work is terminal must be terminal, and its completion / the next retry / the next hand-over must happen at the virtual instant implied by the configuration (never a fallback timer).",
+    "DESIGN.md section 6 C03")
 NOT_YET = {}
 
 props = [json.loads(l) for l in open(os.path.join(HERE, "properties.jsonl"))]
